@@ -165,6 +165,14 @@ func genEntrySpec(r *Rng, hasOpen bool) *EntrySpec {
 		e.Start = r.Range(0, 1439)
 		e.Value = fmtTime(e.Start, r.Chance(1, 4), false) + " - " + strings.Repeat("?", r.Pick2([]int{1, 1, 1, 2, 3}))
 	}
+	if e.Kind == "invalid" {
+		// no free-form summary: a following word such as `?` or a time could turn the broken
+		// value into a valid entry
+		if r.Chance(1, 2) {
+			e.Summary = []string{"zzz"}
+		}
+		return e
+	}
 	if r.Chance(3, 5) {
 		e.Summary = genSummaryLines(r)
 	}
@@ -232,8 +240,21 @@ func (g *genState) dateArgs(a *OpArgs, st MState, farOK bool) {
 	}
 }
 
+// invalidEntrySummary: continuation lines must not be blank.
+func invalidEntrySummary(r *Rng) []string {
+	// (a carriage-return-only line is not used: it is a blank line in an LF file but an
+	// ordinary, if odd, summary line in a CRLF file)
+	return [][]string{{"a", ""}, {"a", "  "}, {"", "", "b"}, {"x", "\t"}, {"a", "", "b"}}[r.Intn(5)]
+}
+
 func (g *genState) summaryArgs(a *OpArgs) {
 	r := g.r
+	if r.Chance(1, 40) {
+		a.Summary = invalidEntrySummary(r)
+		a.Invalid = true
+		a.Why = "invalid summary argument"
+		return
+	}
 	switch k := r.Intn(20); {
 	case k < 8:
 	case k < 15:
@@ -281,6 +302,12 @@ func (g *genState) genMutating(kind string, file string) Op {
 			for i := 0; i < n; i++ {
 				a.Summary = append(a.Summary, genSummaryText(r))
 			}
+		}
+		if r.Chance(1, 30) {
+			// a record summary line must not be blank nor start with a blank
+			a.Summary = [][]string{{" lead"}, {"a", ""}, {"a", " b"}, {"\tx"}, {"ok", "  "}}[r.Intn(5)]
+			a.Invalid = true
+			a.Why = "invalid record summary argument"
 		}
 	case "start", "stop", "switch":
 		g.dateArgs(a, st, r.Chance(1, 3))
@@ -339,9 +366,16 @@ func (g *genState) genMutating(kind string, file string) Op {
 		} else if r.Chance(1, 3) {
 			a.Round = roundings[r.Intn(len(roundings))]
 		}
+		if explicit && r.Chance(1, 8) {
+			a.Round = roundings[r.Intn(len(roundings))] // must not touch an explicit time
+		}
 		if kind == "stop" {
 			if r.Chance(2, 5) {
 				a.Summary = genSummaryLines(r)
+			}
+			if r.Chance(1, 40) {
+				a.Summary = invalidEntrySummary(r)
+				a.Invalid = true
 			}
 		} else {
 			g.summaryArgs(a)
@@ -766,6 +800,10 @@ func genC17(r *Rng, seed int64, index int, tier string) *Scenario {
 	if viaConfig {
 		w.CfgRounding = rounding
 		w.ConfigIni = fmt.Sprintf("default_rounding = %dm\n", rounding)
+	} else if rounding != 0 && r.Chance(1, 5) {
+		// both a configured default and the flag: the flag wins
+		w.CfgRounding = roundings[r.Intn(len(roundings))]
+		w.ConfigIni = fmt.Sprintf("default_rounding = %dm\n", w.CfgRounding)
 	}
 	// layout
 	st := genStyle(r, nil, false)
@@ -917,10 +955,10 @@ func (histEngine) shrink(sc *Scenario) []*Scenario {
 		}
 		if op.mutating() && op.Kind != "pause" {
 			a := op.Args
-			if len(a.Summary) > 1 {
+			if len(a.Summary) > 1 && !a.Invalid {
 				add(func(c *HistCase) { c.Ops[i].Args.Summary = c.Ops[i].Args.Summary[:1]; c.Ops[i].renderArgv() })
 			}
-			if a.Summary != nil {
+			if a.Summary != nil && !a.Invalid {
 				add(func(c *HistCase) { c.Ops[i].Args.Summary = nil; c.Ops[i].renderArgv() })
 			}
 			if a.Entry != nil && len(a.Entry.Summary) > 0 {
